@@ -198,6 +198,49 @@ def manyLoop (p : P) : Nat → Val → St → Res
 
 def manyS (fuel : Nat) (p : P) : P := fun s => manyLoop p fuel .falsy s
 
+/-- the token-by-token walk of `_match_text_seq`: (all texts matched?, state where it stopped) -/
+def textSeqGo (toks : List Tok) : List Tok → St → Bool × St
+  | [], s => (true, s)
+  | t :: ts, s => if curr toks s.idx = some t then textSeqGo toks ts (bump 1 s) else (false, s)
+
+/-- `self._match_text_seq(*texts, advance=adv)`: advances one token per matching text, retreats to the start as soon
+    as a text does not match, and also after a full match when `advance=False` (a token "has text t" = has id t) -/
+def matchTextSeq (toks : List Tok) (ts : List Tok) (adv : Bool) : P := fun s =>
+  match textSeqGo toks ts s with
+  | (true, s1) => (.ret .truthy, if adv then s1 else retreat s.idx s1)
+  | (false, s1) => (.ret .falsy, retreat s.idx s1)
+
+/-- `while self._curr: self._advance()` (`_parse_as_command`, the Command fallback): one step per remaining token -/
+def restOfChunk (toks : List Tok) : P := fun s =>
+  (.ret .truthy, if s.idx < toks.length then { s with idx := toks.length, steps := s.steps + (toks.length - s.idx) } else s)
+
+/-- `if self._match_set(ts): return p()` … `return q()`  (`_parse_statement`'s dispatch on STATEMENT_PARSERS / COMMANDS) -/
+def ifTokS (toks : List Tok) (ts : List Tok) (p q : P) : P := fun s =>
+  if inSet ts (curr toks s.idx) then p (bump 1 s) else q s
+
+def keyOf (keys : List Tok) : Option Tok → Option Tok
+  | some k => if keys.contains k then some k else none
+  | none => none
+
+/-- the dispatch-table loops (`_parse_range` over RANGE_PARSERS, `_parse_column_ops` over COLUMN_OPERATORS,
+    `_parse_query_modifiers` over QUERY_MODIFIER_PARSERS, …):
+      while True:
+          if self._match_set(TABLE, advance=consume):  x = TABLE[key](self …);  if not x: return this;  this = x
+          else: break
+    `consume = false` is the peeking variant (`advance=False`: the entry consumes its own keyword). -/
+def tableLoop (toks : List Tok) (keys : List Tok) (consume : Bool) (entry : Tok → P) : Nat → Val → St → Res
+  | 0, _, s => (.diverged, s)
+  | fuel + 1, acc, s =>
+    match keyOf keys (curr toks s.idx) with
+    | some k =>
+      match entry k (if consume then bump 1 s else s) with
+      | (.ret v, s1) => if v.isTruthy then tableLoop toks keys consume entry fuel .truthy s1 else (.ret acc, s1)
+      | r => r
+    | none => (.ret acc, s)
+
+def tableLoopS (toks : List Tok) (keys : List Tok) (consume : Bool) (fuel : Nat) (entry : Tok → P) : P :=
+  fun s => tableLoop toks keys consume entry fuel .falsy s
+
 /-- combinator programs: closed descriptions of parse methods written in the idioms above -/
 inductive Comb where
   | eps                                   -- build a node, touch nothing
@@ -217,6 +260,10 @@ inductive Comb where
   | csv (p : Comb) (sep : Tok)            -- self._parse_csv(p, sep)
   | wrapped (p : Comb) (optional : Bool)  -- self._parse_wrapped(p, optional)
   | many (p : Comb)
+  | textSeq (ts : List Tok) (adv : Bool)  -- self._match_text_seq(*ts, advance=adv)
+  | restOfChunk                           -- while self._curr: self._advance()
+  | ifTok (ts : List Tok) (p q : Comb)    -- if self._match_set(ts): return p() ; return q()
+  | tableLoop (keys : List Tok) (p : Comb) (consume : Bool)   -- dispatch-table loop, one body for every key
   deriving Repr
 
 /-- the semantics; `fuel` caps the number of iterations of each single loop activation -/
@@ -238,6 +285,10 @@ def run (toks : List Tok) (fuel : Nat) : Comb → P
   | .csv p sep => csvS toks sep fuel (run toks fuel p)
   | .wrapped p o => wrappedS toks (run toks fuel p) o
   | .many p => manyS fuel (run toks fuel p)
+  | .textSeq ts adv => matchTextSeq toks ts adv
+  | .restOfChunk => restOfChunk toks
+  | .ifTok ts p q => ifTokS toks ts (run toks fuel p) (run toks fuel q)
+  | .tableLoop keys p c => tableLoopS toks keys c fuel (fun _ => run toks fuel p)
 
 /-- never moves the cursor when it returns (syntactic sufficient condition) -/
 def Comb.still : Comb → Bool
@@ -245,6 +296,7 @@ def Comb.still : Comb → Bool
   | .andThen p q | .both p q | .orElse p q => p.still && q.still
   | .attempt p => p.still
   | .tryParse p rt => rt || p.still
+  | .textSeq _ adv => !adv
   | _ => false
 
 /-- never returns a falsy value (syntactic sufficient condition) -/
@@ -254,6 +306,8 @@ def Comb.total : Comb → Bool
   | .orElse _ q => q.total
   | .attempt p => p.total
   | .wrapped p _ => p.total
+  | .restOfChunk => true
+  | .ifTok _ p q => p.total && q.total
   | _ => false
 
 /-- never returns a falsy value with the cursor moved (syntactic sufficient condition) -/
@@ -268,6 +322,10 @@ def Comb.restoring : Comb → Bool
   | .csv _ _ => false
   | .wrapped _ _ => false
   | .many _ => false
+  | .textSeq _ _ => true
+  | .restOfChunk => true
+  | .ifTok _ p q => p.total && q.restoring
+  | .tableLoop _ _ _ => false
 
 /-- a truthy result means at least one token was consumed (syntactic sufficient condition) -/
 def Comb.consuming : Comb → Bool
@@ -281,6 +339,10 @@ def Comb.consuming : Comb → Bool
   | .csv _ _ => false
   | .wrapped _ _ => false
   | .many _ => false
+  | .textSeq ts adv => adv && !ts.isEmpty
+  | .restOfChunk => false
+  | .ifTok _ _ q => q.consuming
+  | .tableLoop _ _ _ => false
 
 /-- no bare `_advance()`, and every `while True` loop body consumes input when it reports success -/
 def Comb.wf : Comb → Bool
@@ -289,6 +351,9 @@ def Comb.wf : Comb → Bool
   | .andThen p q | .both p q | .orElse p q => p.wf && q.wf
   | .attempt p | .tryParse p _ | .csv p _ | .wrapped p _ => p.wf
   | .many p => p.wf && p.consuming
+  | .textSeq _ _ | .restOfChunk => true
+  | .ifTok _ p q => p.wf && q.wf
+  | .tableLoop _ p c => p.wf && (c || p.consuming)
 
 /-- explicit step bound in the number `r` of remaining tokens -/
 def Comb.bound : Comb → Nat → Nat
@@ -299,6 +364,10 @@ def Comb.bound : Comb → Nat → Nat
   | .csv p _, r => (r + 1) * (p.bound r + 1)
   | .wrapped p _, r => p.bound r + 2
   | .many p, r => (r + 1) * p.bound r
+  | .textSeq ts _, _ => ts.length + 1
+  | .restOfChunk, r => r
+  | .ifTok _ p q, r => p.bound r + q.bound r + 1
+  | .tableLoop _ p _, r => (r + 1) * (p.bound r + 1)
 
 /-- loop nesting depth = degree of the bound -/
 def Comb.depth : Comb → Nat
@@ -306,6 +375,10 @@ def Comb.depth : Comb → Nat
   | .andThen p q | .both p q | .orElse p q => max p.depth q.depth
   | .attempt p | .tryParse p _ | .wrapped p _ => p.depth
   | .csv p _ | .many p => p.depth + 1
+  | .textSeq _ _ => 0
+  | .restOfChunk => 1
+  | .ifTok _ p q => max p.depth q.depth
+  | .tableLoop _ p _ => p.depth + 1
 
 /-- leading coefficient of the bound -/
 def Comb.coeff : Comb → Nat
@@ -316,6 +389,22 @@ def Comb.coeff : Comb → Nat
   | .wrapped p _ => p.coeff + 2
   | .csv p _ => p.coeff + 1
   | .many p => p.coeff
+  | .textSeq ts _ => ts.length + 1
+  | .restOfChunk => 1
+  | .ifTok _ p q => p.coeff + q.coeff + 1
+  | .tableLoop _ p _ => p.coeff + 1
+
+/-- `_parse_wrapped_csv(p, sep, optional)` = `_parse_wrapped(lambda: _parse_csv(p, sep), optional)` -/
+def Comb.wrappedCsv (p : Comb) (sep : Tok) (optional : Bool) : Comb := .wrapped (.csv p sep) optional
+
+/-- `_parse_wrapped_id_vars(optional)` = `_parse_wrapped_csv(_parse_id_var, optional=optional)`; `_parse_id_var` is seen
+    as "match one token out of the identifier token set" -/
+def Comb.wrappedIdVars (idToks : List Tok) (optional : Bool) : Comb := .wrappedCsv (.tokSet idToks) COMMA optional
+
+/-- `_parse_statement`: STATEMENT_PARSERS dispatch, else the tokenizer's COMMANDS (`_parse_command`; here with the
+    `_parse_as_command` tail that swallows the rest of the chunk), else an expression -/
+def Comb.statement (stmtKeys : List Tok) (stmt : Comb) (cmdKeys : List Tok) (expr : Comb) : Comb :=
+  .ifTok stmtKeys stmt (.ifTok cmdKeys .restOfChunk expr)
 
 def initSt (lvl : Level) : St := ⟨0, 0, 0, lvl⟩
 
@@ -336,5 +425,14 @@ def parseTop (toks : List Tok) (fuel : Nat) (p : Comb) (lvl : Level) : Res :=
   match run toks fuel p (initSt lvl) with
   | (.ret v, s1) => checkErrorsK (leftoverK toks v s1)
   | r => r
+
+/-- `_parse_batch_statements`: one `parseTop` per chunk; the loop is over the (finite) chunk list, whatever the statement
+    parser does.  Stops at the first chunk that raises; result = outcome of the last chunk run and the total step count. -/
+def parseBatch (fuel : Nat) (p : Comb) (lvl : Level) : List (List Tok) → Nat → Out × Nat
+  | [], steps => (.ret .truthy, steps)
+  | c :: cs, steps =>
+    match parseTop c fuel p lvl with
+    | (.ret _, s) => parseBatch fuel p lvl cs (steps + s.steps)
+    | (o, s) => (o, steps + s.steps)
 
 end SqlglotModel.Cursor
